@@ -19,7 +19,9 @@
                                    exists fuel m' b, start_char fuel e m c = Some (m', b)
    i.e. that the call always returns: finiteness of the derivative closure (the same gap as
    C19_iter_terminates and C05) and absence of u32 overflow panics in the constructors called by the
-   derivative code.  C18_start_class_bad_id needs no such hypothesis.
+   derivative code (the latter is now a theorem: defect D11 is repaired, C03_char_derivative_total;
+   the former is proved for is_empty_re in Properties/C19t.v).  C18_start_class_bad_id needs no such
+   hypothesis.
 
    Vocabulary (Sem.v, Denote.v, PartitionSpec.v, DerivProofs.v):
      L e w              the word w is in the language of the model term e
